@@ -23,10 +23,27 @@ type copts struct {
 	maxI, minI, freq *int
 	res              *sparse.Vector // WithResultIn: a separate, pre-filled destination vector
 	aliasT0          bool           // WithResultIn(v) and WithInitialTrust(v) on the SAME vector (the gRPC server's warm start)
+	decoy            []int          // overridden options placed EARLIER in the option list (functional options: the last setting of a field wins)
 }
 
 func (o copts) goOpts(stats *basic.FlatTailStats) []basic.ComputeOpt {
 	opts := []basic.ComputeOpt{basic.WithFlatTailStats(stats), basic.WithFlatTail(o.flat), basic.WithFlatTailNumLeaders(o.leaders)}
+	// decoys: each is a setting that a LATER option of this list overrides completely, so by the documented
+	// semantics of the options (each sets its own field(s); defaults are resolved when Compute starts) it
+	// must have no effect.  decoy = kind*100 + value.
+	for _, d := range o.decoy {
+		kind, val := d/100, d%100
+		switch {
+		case kind == 0 && o.freq != nil:
+			opts = append(opts, basic.WithCheckFreq(val))
+		case kind == 1 && o.minI != nil:
+			opts = append(opts, basic.WithMinIterations(val))
+		case kind == 2 && o.maxI != nil:
+			opts = append(opts, basic.WithMaxIterations(val))
+		case kind == 3 && o.minI != nil && o.maxI != nil:
+			opts = append(opts, basic.WithIterations(val))
+		}
+	}
 	if o.t0 != nil {
 		v := cloneVec(o.t0)
 		opts = append(opts, basic.WithInitialTrust(v))
@@ -357,6 +374,16 @@ func runComputeProps(prop string) func(h *H) {
 						g.count("result-in:aliases-initial-trust")
 					}
 				}
+			}
+			if (g.intn(3) == 0 || (prop == "C05" && g.intn(2) == 0)) && (o.freq != nil || o.minI != nil || o.maxI != nil) {
+				for k := g.intn(2) + 1; k > 0; k-- {
+					kind := g.intn(4)
+					if o.freq != nil && g.intn(2) == 0 {
+						kind = 0 // an overridden WithCheckFreq (the documented default of minIterations is the FINAL checkFreq)
+					}
+					o.decoy = append(o.decoy, kind*100+g.intn(9)+1)
+				}
+				g.count("overridden-earlier-options")
 			}
 			w := h.line(prop, "compute").creq(c, p, a, e, o)
 			oc := observeCompute(w, c, p, a, e, o, wd)
